@@ -64,6 +64,7 @@ M = [
  ("m72-bootstrap-sets-term-one", "storage.go", "	if s.term < 1 {\n		s.setTerm(1)\n	}", "	s.setTerm(1)", "C15"),
  ("m73-timer-only-for-electable", "follower.go", "		f.electionAborted = false\n	}\n	// a node that cannot start an election needs the timer too:\n	// its expiry is what makes the node forget a leader that has\n	// gone silent, without which it refuses every vote request\n	f.timer.reset(f.rtime.duration(f.hbTimeout))", "		f.electionAborted = false\n		f.timer.reset(f.rtime.duration(f.hbTimeout))\n	}", "C17"),
  ("m74-new-ignores-the-lock", "raft.go", "	if _, err := os.Lstat(filepath.Join(storageDir, \"lock\")); err == nil {\n		return nil, ErrLockExists\n	}\n", "	if _, err := os.Lstat(filepath.Join(storageDir, \"lock\")); err == nil && false {\n		return nil, ErrLockExists\n	}\n", "C20"),
+ ("m75-reset-removes-oldest-first", "log/log.go", "	for l.last != nil {\n		s := l.last\n		if err := s.closeAndRemove(); err != nil {\n			return err\n		}\n		verifPoint(l.dir, \"log.reset.each\")\n		l.last = s.prev\n		if l.last != nil {\n			disconnect(l.last, s)\n		}\n	}\n	l.first = nil\n", "	for l.first != nil {\n		if err := l.first.closeAndRemove(); err != nil {\n			return err\n		}\n		verifPoint(l.dir, \"log.reset.each\")\n		l.first = l.first.next\n	}\n", "C10"),
  ("m38-swap-fields", "messages.go", "	if req.lastLogIndex, err = readUint64(r); err != nil {\n		return err\n	}\n	if req.lastLogTerm, err = readUint64(r); err != nil {", "	if req.lastLogTerm, err = readUint64(r); err != nil {\n		return err\n	}\n	if req.lastLogIndex, err = readUint64(r); err != nil {", "C18"),
  ("m40-commit-regress", "rpc.go", "		term == req.term && // don't commit any entry, until leader has committed an entry with his term\n		index > r.commitIndex // haven't we committed yet", "		term == req.term // don't commit any entry, until leader has committed an entry with his term", "C19"),
  ("m41-identity-and", "rpc.go", "		if r.cid != req.cid || r.nid != req.nid {", "		if r.cid != req.cid && r.nid != req.nid {", "C20"),
